@@ -74,6 +74,20 @@ theorem commonprefix_alone_insufficient :
     have := List.append_cancel_left h'
     simp at this
 
+/-- **What actually confines.** The `..` alternative of the regex is not what the confinement rests on:
+    whenever `id` contains no `/` and the common-prefix test of `_get_rails` passes, the path is inside the
+    root (for `id = ".."` the prefix test only passes when the root is `/` or `//`, where `..` is the root
+    itself).  Together with `commonprefix_alone_insufficient`: separator class + prefix test confine,
+    neither the prefix test alone nor — on a cache miss — anything weaker does. -/
+theorem separator_class_and_prefix_test_confine (base id : Str) (hb : AbsNorm base) (hs : '/' ∉ id)
+    (hcp : commonprefix [normpath (pjoin base id), base] = base) : Inside base (normpath (pjoin base id)) :=
+  inside_of_noslash_prefix hb hs hcp
+
+/-- non-vacuity: `..` under `/srv/configs` fails the prefix test, under `/` it passes and is the root. -/
+example : commonprefix [normpath (pjoin "/srv/configs".toList "..".toList), "/srv/configs".toList] ≠ "/srv/configs".toList ∧
+    commonprefix [normpath (pjoin "/".toList "..".toList), "/".toList] = "/".toList ∧ normpath (pjoin "/".toList "..".toList) = "/".toList := by
+  decide
+
 /-- **Only confined paths are ever loaded — every request sequence.** Starting from the empty server
     state, after any sequence of requests (any ids, any mix of cache hits and misses, single-config mode
     or not, `from_path` failing or not, any LLM behaviour): every path that was handed to
